@@ -223,10 +223,17 @@ enum IF { N(usize), Nl(usize), L(usize), Ll(usize), S }
 /// `dflt[i][k]`: field k of node i also carries a default value (which must not matter)
 fn input_case(ctx: &mut Ctx, g: &[Vec<IF>]) { let d: Vec<Vec<bool>> = g.iter().map(|fs| vec![false; fs.len()]).collect(); input_case_d(ctx, g, &d) }
 
-fn input_case_d(ctx: &mut Ctx, g: &[Vec<IF>], dflt: &[Vec<bool>]) {
+fn input_case_d(ctx: &mut Ctx, g: &[Vec<IF>], dflt: &[Vec<bool>]) { input_case_x(ctx, g, dflt, 0) }
+
+/// `ext`: 0 = every field in the definition; 1 = the fields at odd positions arrive through `extend input` written
+/// after all definitions; 2 = ALL graph fields arrive through extensions written BEFORE the definitions (the
+/// definition keeps `pad`).  The merged field order differs from the written one only for ext = 1, which the
+/// encoding follows (definition's fields first).
+fn input_case_x(ctx: &mut Ctx, g: &[Vec<IF>], dflt: &[Vec<bool>], ext: usize) {
     let n = g.len();
     let tn = |j: usize| if j < n { format!("In{j}") } else { "En".to_string() };
     let mut text = String::from("type Query { a: Int }\n");
+    let (mut head, mut tail) = (String::new(), String::new());
     let mut encs = vec![];
     for (i, fs) in g.iter().enumerate() {
         let mut parts = vec![];
@@ -238,10 +245,27 @@ fn input_case_d(ctx: &mut Ctx, g: &[Vec<IF>], dflt: &[Vec<bool>]) {
             parts.push(if has_d { format!("f{k}: {t} = {lit}") } else { format!("f{k}: {t}") });
             e.push(if has_d { format!("{c}d") } else { c });
         }
-        text.push_str(&format!("input In{i} {{ {} pad: Int }}\n", parts.join(" ")));
+        match ext {
+            1 if parts.len() > 1 => {
+                let pick = |v: &Vec<String>, odd: bool| v.iter().enumerate().filter(|(k, _)| (k % 2 == 1) == odd).map(|(_, x)| x.clone()).collect::<Vec<_>>();
+                text.push_str(&format!("input In{i} {{ {} pad: Int }}\n", pick(&parts, false).join(" ")));
+                tail.push_str(&format!("extend input In{i} {{ {} }}\n", pick(&parts, true).join(" ")));
+                let mut m = pick(&e, false); m.extend(pick(&e, true)); e = m;
+                ctx.stat("inputcycle_fields_by_extension");
+            }
+            2 if !parts.is_empty() => {
+                text.push_str(&format!("input In{i} {{ pad: Int }}\n"));
+                head.push_str(&format!("extend input In{i} {{ {} }}\n", parts.join(" ")));
+                ctx.stat("inputcycle_fields_by_earlier_extension");
+            }
+            _ => text.push_str(&format!("input In{i} {{ {} pad: Int }}\n", parts.join(" "))),
+        }
         encs.push(e.join(","));
     }
     text.push_str("enum En { V }\n");
+    text.push_str(&tail);
+    // extensions in front go on the FIRST line (the line numbers of the definitions are what `failing_lines` reads)
+    if !head.is_empty() { text = format!("{} {}", head.replace('\n', " ").trim_end(), text); }
     let out = match failing_lines(&text, n) {
         Err(p) => { ctx.fail("schema-validation-panic", &text, &p); "PANIC".to_string() }
         Ok(Err(u)) => u,
@@ -369,9 +393,17 @@ fn streams(ctx: &mut Ctx) {
         let g: Vec<Vec<IF>> = (0..n).map(|_| { let nf = ctx.rng.below(4); (0..nf).map(|_| { let j = ctx.rng.below(n + 1); match ctx.rng.below(8) { 0..=4 => IF::N(j), 5 => IF::Nl(j), 6 => IF::L(j), _ => IF::S } }).collect() }).collect();
         if round % 2 == 0 { input_case(ctx, &g); } else {
             let d: Vec<Vec<bool>> = g.iter().map(|fs| fs.iter().map(|_| ctx.rng.chance(1, 3)).collect()).collect();
-            input_case_d(ctx, &g, &d);
+            let ext = if ctx.rng.chance(1, 2) { 1 + ctx.rng.below(2) } else { 0 };
+            input_case_x(ctx, &g, &d, ext);
         }
     }
+    // every two-node graph with up to 1 + 2 fields again with its fields supplied by extensions (after / before)
+    for a in &node_shapes { for b in &node_shapes { if a.len() + b.len() <= 3 && a.len() + b.len() >= 1 {
+        let gg = [a.clone(), b.clone()];
+        let d: Vec<Vec<bool>> = gg.iter().map(|fs| vec![false; fs.len()]).collect();
+        if a.len() == 2 || b.len() == 2 { input_case_x(ctx, &gg, &d, 1); }
+        if ctx.thorough || a.len() + b.len() <= 2 { input_case_x(ctx, &gg, &d, 2); }
+    } } }
     // ---- implements
     let subsets = |n: usize| -> Vec<Vec<usize>> { (0..(1usize << (n + 1))).map(|m| (0..=n).filter(|j| m & (1 << j) != 0).collect()).collect() };
     for n in 1..=2usize {
@@ -469,7 +501,7 @@ fn field_enc(f: &GField) -> String {
     format!("{}~{}~{}", f.name, ty_enc(&f.ty), args.join(","))
 }
 
-fn print_fields(fs: &[GField]) -> String {
+pub(crate) fn print_fields(fs: &[GField]) -> String {
     fs.iter().map(|f| {
         let a = if f.args.is_empty() { String::new() } else { format!("({})", f.args.iter().map(|a| format!("{}: {}{}", a.name, a.ty.print(), a.default.as_ref().map(|d| format!(" = {d}")).unwrap_or_default())).collect::<Vec<_>>().join(", ")) };
         format!("{}{}: {}", f.name, a, f.ty.print())
@@ -491,23 +523,53 @@ fn count_on_lines(src: &str, lines: &[usize]) -> Result<Result<Vec<usize>, Strin
     })
 }
 
-fn implfields_case(ctx: &mut Ctx, ifaces: &[Vec<GField>], tfields: &[GField], t_is_interface: bool) {
+fn implfields_case(ctx: &mut Ctx, ifaces: &[Vec<GField>], tfields: &[GField], t_is_interface: bool) { implfields_case_l(ctx, ifaces, tfields, t_is_interface, 0) }
+
+/// `layout`: 0 = everything in the definition of `T`; 1 = `T`'s compared fields come from an extension of `T`;
+/// 2 = the `implements` list comes from an extension of `T`; 3 = the interfaces' fields come from extensions of the
+/// interfaces, written after `T`.  The model (and the specification) see the merged types only.
+fn implfields_case_l(ctx: &mut Ctx, ifaces: &[Vec<GField>], tfields: &[GField], t_is_interface: bool, layout: usize) {
     let mut text = String::from("type Query { a: Int }\ninterface Node { id: ID }\ntype A implements Node { id: ID x: Int }\ntype B { y: Int }\nunion U = A | B\n");
     let mut subs = vec!["Node>A".to_string(), "U>A".to_string(), "U>B".to_string()];
+    let mut tail = String::new();
     for (i, fs) in ifaces.iter().enumerate() {
-        text.push_str(&format!("interface I{i} {{ {} }}\n", print_fields(fs)));
+        if layout == 3 && !fs.is_empty() {
+            text.push_str(&format!("interface I{i} {{ {} }}\n", print_fields(&fs[..1])));
+            // the first field stays in the definition (an interface needs one); the others arrive by extension
+            if fs.len() > 1 { tail.push_str(&format!("extend interface I{i} {{ {} }}\n", print_fields(&fs[1..]))); }
+        } else {
+            text.push_str(&format!("interface I{i} {{ {} }}\n", print_fields(fs)));
+        }
         subs.push(format!("I{i}>T"));
     }
     let mut tf: Vec<GField> = tfields.to_vec();
     tf.push(GField { name: "zz".into(), args: vec![], ty: T::n("Int"), dirs: vec![] });
     let t_line = 6 + ifaces.len();
     let imp: Vec<String> = (0..ifaces.len()).map(|i| format!("I{i}")).collect();
-    text.push_str(&format!("{} T implements {} {{ {} }}\n", if t_is_interface { "interface" } else { "type" }, imp.join(" & "), print_fields(&tf)));
-    let out = match count_on_lines(&text, &[t_line]) {
+    let kw = if t_is_interface { "interface" } else { "type" };
+    let mut lines = vec![t_line];
+    match layout {
+        1 if tf.len() > 1 => {
+            let k = tf.len() - 1;
+            text.push_str(&format!("{kw} T implements {} {{ {} }}\nextend {kw} T {{ {} }}\n", imp.join(" & "), print_fields(&tf[k..]), print_fields(&tf[..k])));
+            lines.push(t_line + 1);
+        }
+        2 => {
+            text.push_str(&format!("{kw} T {{ {} }}\nextend {kw} T implements {}\n", print_fields(&tf), imp.join(" & ")));
+            lines.push(t_line + 1);
+        }
+        _ => text.push_str(&format!("{kw} T implements {} {{ {} }}\n", imp.join(" & "), print_fields(&tf))),
+    }
+    text.push_str(&tail);
+    if layout > 0 { ctx.stat(&format!("implfields_layout:{layout}")); }
+    if t_is_interface { ctx.stat("implfields_implementer_is_interface"); }
+    let out = match count_on_lines(&text, &lines) {
         Err(p) => { ctx.fail("schema-validation-panic", &text, &p); "PANIC".to_string() }
         Ok(Err(u)) => u,
-        Ok(Ok(c)) => c[0].to_string(),
+        Ok(Ok(c)) => c.iter().sum::<usize>().to_string(),
     };
+    // layout 1 lists the fields as the merged type has them: definition first (zz), then the extension's
+    if layout == 1 && tf.len() > 1 { let z = tf.pop().unwrap(); tf.insert(0, z); }
     let fe = |fs: &[GField]| fs.iter().map(field_enc).collect::<Vec<_>>().join("&");
     let ienc: Vec<String> = ifaces.iter().map(|fs| fe(fs)).collect();
     if out != "0" { ctx.nontrivial(&format!("if|{}|{}", fe(&tf), ienc.join("|"))); }
@@ -534,7 +596,7 @@ fn kinds_case(ctx: &mut Ctx, x: &T, y: &T, y2: &T, z: &T, z2: &T, w: &str, w2: &
     judge(ctx, &text, "stream-kinds");
 }
 
-fn wrap_all(n: &str) -> Vec<T> {
+pub(crate) fn wrap_all(n: &str) -> Vec<T> {
     vec![T::n(n), T::n(n).nn(), T::n(n).list(), T::n(n).list().nn(), T::n(n).nn().list(), T::n(n).nn().list().nn()]
 }
 
@@ -548,6 +610,16 @@ fn streams2(ctx: &mut Ctx) {
         let f = |t: &T| GField { name: "f".into(), args: vec![], ty: t.clone(), dirs: vec![] };
         implfields_case(ctx, &[vec![f(a)]], &[f(b)], false);
     } }
+    // the same pairs with an INTERFACE as the implementer (interface-implements-interface subtyping), over the
+    // composite names, in rotating layouts (fields / implements list / interface fields supplied by extensions)
+    let mut rot = 0usize;
+    for a in &tys { for b in &tys {
+        if !ctx.thorough && !(["A", "Node", "T", "I0"].contains(&a.named()) && ["A", "Node", "T", "I0"].contains(&b.named())) { continue; }
+        let f = |t: &T| GField { name: "f".into(), args: vec![], ty: t.clone(), dirs: vec![] };
+        let g = GField { name: "g".into(), args: vec![], ty: T::n("Int"), dirs: vec![] };
+        rot += 1;
+        implfields_case_l(ctx, &[vec![g.clone(), f(a)]], &[f(b), g.clone()], true, rot % 4);
+    } }
     // arguments: every interface argument list over {a, b} against implementing variants
     let arg = |n: &str, t: T, d: Option<&str>| GIn { name: n.into(), ty: t, default: d.map(|s| s.to_string()), dirs: vec![] };
     let a_opts: Vec<Option<GIn>> = vec![None, Some(arg("a", T::n("Int"), None)), Some(arg("a", T::n("Int").nn(), None)), Some(arg("a", T::n("Int").list(), None)), Some(arg("a", T::n("String"), None)), Some(arg("a", T::n("Int"), Some("1")))];
@@ -559,6 +631,8 @@ fn streams2(ctx: &mut Ctx) {
         if ctx.rng.chance(1, 2) { targs.reverse(); }
         let fi = GField { name: "f".into(), args: iargs, ty: T::n("Int"), dirs: vec![] };
         let ft = GField { name: "f".into(), args: targs, ty: T::n("Int"), dirs: vec![] };
+        rot += 1;
+        if rot % 3 == 0 { implfields_case_l(ctx, &[vec![fi.clone()]], &[ft.clone()], rot % 2 == 0, 1 + (rot / 3) % 2); }
         implfields_case(ctx, &[vec![fi]], &[ft], false);
     } } } } }
     // random: one or two interfaces, several fields, perturbed implementations (objects and interfaces)
@@ -590,7 +664,8 @@ fn streams2(ctx: &mut Ctx) {
             tf.push(g);
         } }
         let as_iface = ctx.rng.chance(1, 4);
-        implfields_case(ctx, &ifaces, &tf, as_iface);
+        let layout = if ctx.rng.chance(1, 2) { ctx.rng.below(4) } else { 0 };
+        implfields_case_l(ctx, &ifaces, &tf, as_iface, layout);
     }
     // kinds of referenced types
     let pool = ["S", "A", "I", "U", "E", "N", "Undef", "Int", "Float", "T", "In", "Un"];
@@ -618,7 +693,69 @@ struct DApp { name: usize, args: Vec<(usize, bool)> } // (name, is null)
 const TS_LOC_NAMES: [&str; 11] = ["SCHEMA", "SCALAR", "OBJECT", "FIELD_DEFINITION", "ARGUMENT_DEFINITION", "INTERFACE", "UNION", "ENUM", "ENUM_VALUE", "INPUT_OBJECT", "INPUT_FIELD_DEFINITION"];
 const EX_LOC_NAMES: [&str; 3] = ["FIELD", "QUERY", "FRAGMENT_SPREAD"];
 
-fn dirapps_case(ctx: &mut Ctx, defs: &[DDef], loc: usize, apps: &[DApp]) {
+/// number of textual layouts of the application site for a location (variant 0 = the plain definition)
+const DIRAPPS_VARIANTS: [usize; 11] = [4, 4, 4, 4, 5, 4, 4, 3, 3, 3, 3];
+
+/// The application site of `c14.dirapps` in one of several layouts that the model does not distinguish: the
+/// applications sit on the definition, on an extension (after or before the definition), are split between the
+/// definition and an extension (first application on the definition, the others on the extension), sit on a
+/// member that an extension adds, on an interface instead of an object, on a later sibling, on the argument of a
+/// directive definition, or on an extension of a built-in scalar.
+fn dirapps_site(loc: usize, variant: usize, apps: &[String]) -> String {
+    let a: String = apps.concat();
+    let a1: String = apps.first().cloned().unwrap_or_default();
+    let a2: String = apps.iter().skip(1).cloned().collect();
+    // type-level sites: (keyword, name, body of the definition, what a bare definition needs instead of a body)
+    let type_level = |kw: &str, name: &str, body: &str| -> String {
+        match variant {
+            0 => format!("{kw} {name}{a}{body}\n"),
+            1 => if a.is_empty() { format!("{kw} {name}{body}\n") } else { format!("{kw} {name}{body}\nextend {kw} {name}{a}\n") },
+            2 => if a2.is_empty() { format!("{kw} {name}{a1}{body}\n") } else { format!("{kw} {name}{a1}{body}\nextend {kw} {name}{a2}\n") },
+            _ => if a.is_empty() { format!("{kw} {name}{body}\n") } else { format!("extend {kw} {name}{a}\n{kw} {name}{body}\n") },
+        }
+    };
+    match loc {
+        0 => match variant {
+            0 => format!("schema{a} {{ query: Query }}\n"),
+            1 => if a.is_empty() { "schema { query: Query }\n".to_string() } else { format!("schema {{ query: Query }}\nextend schema{a}\n") },
+            2 => if a2.is_empty() { format!("schema{a1} {{ query: Query }}\n") } else { format!("schema{a1} {{ query: Query }}\nextend schema{a2}\n") },
+            _ => if a.is_empty() { "schema { query: Query }\n".to_string() } else { format!("extend schema{a}\nschema {{ query: Query }}\n") },
+        },
+        1 => if variant == 3 { if a.is_empty() { "scalar S\n".to_string() } else { format!("extend scalar Int{a}\n") } } else { type_level("scalar", "S", "") },
+        2 => type_level("type", "O", " { x: Int }"),
+        3 => match variant {
+            0 => format!("type O {{ x: Int{a} }}\n"),
+            1 => format!("interface I {{ x: Int{a} }}\n"),
+            2 => format!("type O {{ y: Int }}\nextend type O {{ x: Int{a} }}\n"),
+            _ => format!("extend interface I {{ x: Int{a} }}\ninterface I {{ y: Int }}\n"),
+        },
+        4 => match variant {
+            0 => format!("type O {{ x(p: Int{a}): Int }}\n"),
+            1 => format!("interface I {{ x(p: Int{a}): Int }}\n"),
+            2 => format!("directive @dd(o: Int, p: Int{a}) on QUERY\n"),
+            3 => format!("type O {{ y: Int }}\nextend type O {{ x(p: Int{a}): Int }}\n"),
+            _ => format!("type O {{ x(o: Int, p: Int{a}, q: Int): Int }}\n"),
+        },
+        5 => type_level("interface", "I", " { x: Int }"),
+        6 => type_level("union", "U", " = Query"),
+        7 => if variant >= 3 { format!("enum E{a} {{ V }}\n") } else { type_level("enum", "E", " { V }") },
+        8 => match variant {
+            0 => format!("enum E {{ V{a} }}\n"),
+            1 => format!("enum E {{ V }}\nextend enum E {{ W{a} }}\n"),
+            _ => format!("enum E {{ V W{a} X }}\n"),
+        },
+        9 => if variant >= 3 { format!("input N{a} {{ x: Int }}\n") } else { type_level("input", "N", " { x: Int }") },
+        _ => match variant {
+            0 => format!("input N {{ x: Int{a} }}\n"),
+            1 => format!("input N {{ y: Int }}\nextend input N {{ x: Int{a} }}\n"),
+            _ => format!("input N {{ y: Int x: Int{a} z: Int }}\n"),
+        },
+    }
+}
+
+fn dirapps_case(ctx: &mut Ctx, defs: &[DDef], loc: usize, apps: &[DApp]) { dirapps_case_v(ctx, defs, loc, apps, 0) }
+
+fn dirapps_case_v(ctx: &mut Ctx, defs: &[DDef], loc: usize, apps: &[DApp], variant: usize) {
     let mut text = String::from("type Query { a: Int }\n");
     let mut denc = vec![];
     for (i, d) in defs.iter().enumerate() {
@@ -627,24 +764,12 @@ fn dirapps_case(ctx: &mut Ctx, defs: &[DDef], loc: usize, apps: &[DApp]) {
         text.push_str(&format!("directive @d{i}{}{} on {}\n", if args.is_empty() { String::new() } else { format!("({})", args.join(", ")) }, if d.repeatable { " repeatable" } else { "" }, locs.join(" | ")));
         denc.push(format!("{}:{}:{}", if d.repeatable { "r" } else { "n" }, d.locs.iter().map(|l| l.to_string()).collect::<Vec<_>>().join(","), d.args.iter().map(|(n, r, _)| format!("{n}.{}", if *r { "r" } else { "o" })).collect::<Vec<_>>().join(",")));
     }
-    let app_text: String = apps.iter().map(|a| {
+    let app_texts: Vec<String> = apps.iter().map(|a| {
         let args: Vec<String> = a.args.iter().map(|(n, null)| format!("a{n}: {}", if *null { "null" } else { "1" })).collect();
         format!(" @d{}{}", a.name, if args.is_empty() { String::new() } else { format!("({})", args.join(", ")) })
     }).collect();
-    let a = &app_text;
-    text.push_str(&match loc {
-        0 => format!("schema{a} {{ query: Query }}\n"),
-        1 => format!("scalar S{a}\n"),
-        2 => format!("type O{a} {{ x: Int }}\n"),
-        3 => format!("type O {{ x: Int{a} }}\n"),
-        4 => format!("type O {{ x(p: Int{a}): Int }}\n"),
-        5 => format!("interface I{a} {{ x: Int }}\n"),
-        6 => format!("union U{a} = Query\n"),
-        7 => format!("enum E{a} {{ V }}\n"),
-        8 => format!("enum E {{ V{a} }}\n"),
-        9 => format!("input N{a} {{ x: Int }}\n"),
-        _ => format!("input N {{ x: Int{a} }}\n"),
-    });
+    text.push_str(&dirapps_site(loc, variant, &app_texts));
+    if variant > 0 { ctx.stat(&format!("dirapps_site_variant:{}:{variant}", TS_LOC_NAMES[loc])); }
     const KINDS: [&str; 6] = ["UniqueArgument", "UndefinedDirective", "UniqueDirective", "UnsupportedLocation", "UndefinedArgument", "RequiredArgument"];
     let out = match catch(|| match Schema::parse_and_validate(&text, "s.graphql") {
         Ok(_) => vec![],
@@ -671,6 +796,20 @@ fn streams3(ctx: &mut Ctx) {
             for repeatable in [true, false] {
                 let locs = if allowed { vec![loc, (loc + 3) % 11] } else { vec![(loc + 1) % 11, 100] };
                 let def = DDef { repeatable, locs, args: vec![(0, true, false), (1, false, false)] };
+                // the same site in every other layout (extension, split over definition + extension, member added by
+                // an extension, interface instead of object, directive-definition argument, later sibling, built-in
+                // scalar extension): quick = the four shortest argument lists, once / twice / mixed with an undefined one
+                for variant in 1..DIRAPPS_VARIANTS[loc] {
+                    for (i, al) in arg_lists.iter().enumerate() {
+                        if i >= 4 && !ctx.thorough { continue; }
+                        dirapps_case_v(ctx, &[def.clone()], loc, &[DApp { name: 0, args: al.clone() }], variant);
+                        dirapps_case_v(ctx, &[def.clone()], loc, &[DApp { name: 0, args: vec![(0, false)] }, DApp { name: 0, args: al.clone() }], variant);
+                        if i < 2 || ctx.thorough {
+                            dirapps_case_v(ctx, &[def.clone()], loc, &[DApp { name: 0, args: vec![(0, false)] }, DApp { name: 1, args: al.clone() }], variant);
+                            dirapps_case_v(ctx, &[def.clone()], loc, &[DApp { name: 1, args: vec![] }, DApp { name: 0, args: al.clone() }, DApp { name: 0, args: vec![(0, false)] }], variant);
+                        }
+                    }
+                }
                 for (i, al) in arg_lists.iter().enumerate() {
                     dirapps_case(ctx, &[def.clone()], loc, &[DApp { name: 0, args: al.clone() }]);
                     if i < 4 || ctx.thorough {
@@ -705,7 +844,8 @@ fn streams3(ctx: &mut Ctx) {
             if ctx.rng.chance(1, 4) { args.reverse(); }
             DApp { name, args }
         }).collect();
-        dirapps_case(ctx, &defs, loc, &apps);
+        let variant = if ctx.rng.chance(1, 2) { ctx.rng.below(DIRAPPS_VARIANTS[loc]) } else { 0 };
+        dirapps_case_v(ctx, &defs, loc, &apps, variant);
     }
 }
 
